@@ -317,7 +317,10 @@ def call_contract(E, qual, args, node):
         for e in c.get('ensures', []) + c.get('call_ensures', []):
             if isinstance(e, str) and try_definitional(E, e, env):
                 continue
-            E.assume(E.spec_bool(e, env))
+            try:
+                E.assume(E.spec_bool(e, env))
+            except Unsupported:
+                continue          # a clause about the callee's own ghost state: not visible (and not needed) at the call site
     finally:
         E.st.entry_heap, E.entry_env, E.entry_sdicts, E.entry_frames = saved_entry
     E.st.calls.append((qual, bound, result))
